@@ -236,17 +236,20 @@ Definition dcd_parse (d : list N) : res dcd :=
 Record xmcd := { xm_if : Z; xm_inst : Z; xm_type : Z; xm_cfg : list N }.
 Definition xmcd_size (x : xmcd) : Z := 4 + hlen (xm_cfg x).
 (* XMCDHeader.parse; None = "tag / version do not match" (SPSDKParsingError) *)
+(* (b & 0xF0) >> 4  and  b & 0x0F  of a byte *)
+Definition hi4 (b : Z) : Z := (b / 16) mod 16.
+Definition lo4 (b : Z) : Z := b mod 16.
 Definition xmcd_hdr_parse (d : list N) : res (option (Z * Z * Z * Z)) :=
   if negb (have d 0 4) then Err E_CRASH
   else
     let tv := hbyte d 3 in
-    if negb (Z.shiftr (Z.land tv 240) 4 =? 12) then Ok None
-    else if negb (Z.land tv 15 =? 0) then Ok None
+    if negb (hi4 tv =? 12) then Ok None
+    else if negb (lo4 tv =? 0) then Ok None
     else
-      let iface := Z.shiftr (Z.land (hbyte d 2) 240) 4 in
-      let inst := Z.land (hbyte d 2) 15 in
-      let typ := Z.shiftr (Z.land (hbyte d 1) 240) 4 in
-      let bsz := Z.shiftl (Z.land (hbyte d 1) 15) 8 + hbyte d 0 in
+      let iface := hi4 (hbyte d 2) in
+      let inst := lo4 (hbyte d 2) in
+      let typ := hi4 (hbyte d 1) in
+      let bsz := lo4 (hbyte d 1) * 256 + hbyte d 0 in
       if negb (iface <=? 1) then Err E_REJECT
       else if negb (typ <=? 1) then Err E_REJECT
       else Ok (Some (iface, inst, typ, bsz)).
@@ -255,9 +258,9 @@ Definition xmcd_hdr_parse (d : list N) : res (option (Z * Z * Z * Z)) :=
    -- Python parses  a << 4 + b  as  a << (4 + b) *)
 Definition xmcd_export (x : xmcd) : res (list N) :=
   let bs := xmcd_size x in
-  let b1 := Z.shiftl (xm_type x) 4 + Z.shiftr bs 8 in
-  let b2 := Z.shiftl (xm_if x) (4 + xm_inst x) in
-  if all_fit 1 [b1; b2] then Ok (hbe 1 (Z.land bs 255) ++ hbe 1 b1 ++ hbe 1 b2 ++ [192%N] ++ xm_cfg x) else Err E_CRASH.
+  let b1 := xm_type x * 16 + bs / 256 in
+  let b2 := xm_if x * 2 ^ (4 + xm_inst x) in
+  if all_fit 1 [b1; b2] then Ok (hbe 1 (bs mod 256) ++ hbe 1 b1 ++ hbe 1 b2 ++ [192%N] ++ xm_cfg x) else Err E_CRASH.
 
 (* SegXMCD.parse(file) *)
 Definition xmcd_load (d : list N) : res xmcd :=
@@ -455,87 +458,110 @@ Record built := {
 
 Definition opt_seg (off : Z) (o : option (list N)) : list seg := match o with Some d => [(off, d)] | None => [] end.
 
-Definition hab_build (c : hcfg) : res built :=
-  let flags := h_flags c in
-  if negb (in_list flags [0; 8; 12]) then Err E_BADCASE
+(* geometry *)
+Definition c_auth (c : hcfg) : bool := is_auth_img (h_flags c).
+Definition c_enc (c : hcfg) : bool := is_enc_img (h_flags c).
+Definition c_self (c : hcfg) : Z := h_start c + h_ivt_off c.
+Definition c_app_off (c : hcfg) : Z := h_ils c - h_ivt_off c.
+Definition c_csf_off (c : hcfg) : Z := align_off (h_ils c + hlen (h_app c)) - h_ivt_off c.
+Definition c_app_bin (c : hcfg) : list N := if c_auth c then pad_to 16 (h_app c) else h_app c.
+Definition c_entry (c : hcfg) : Z := match h_entry c with Some e => e | None => hdec_le (hslice (h_app c) 4 8) end.
+Definition c_ivt (c : hcfg) : ivt :=
+  {| iv_ver := 64; iv_app := c_entry c; iv_dcd := (match h_dcd c with Some _ => c_self c + 64 | None => 0 end);
+     iv_bdt := c_self c + 32; iv_self := c_self c; iv_csf := (if c_auth c then c_self c + c_csf_off c else 0) |}.
+Definition c_bdt_len (c : hcfg) : Z :=
+  h_ivt_off c + (if c_auth c then c_csf_off c + 8192 else c_app_off c + hlen (c_app_bin c)) + (if c_enc c then 512 else 0).
+
+(* the segment objects after load_from_config (SEGMENTS_MAPPING order: IVT, BDT, DCD, XMCD, CSF, APP) *)
+Record pre := {
+  q_dcd : option dcd; q_xm : option xmcd; q_cmds0 : list ccmd;
+  q_ivt_b : list N; q_bdt_b : list N; q_xm_b : option (list N) }.
+
+Definition hab_pre (c : hcfg) : res pre :=
+  if negb (in_list (h_flags c) [0; 8; 12]) then Err E_BADCASE
   else if (h_ivt_off c <? 0) || (h_ils c <? h_ivt_off c) || (h_start c <? 0) then Err E_BADCASE
   else
-  let auth := is_auth_img flags in
-  let enc := is_enc_img flags in
-  let app := h_app c in
-  let ivt_addr := h_start c + h_ivt_off c in
-  let csf_off := align_off (h_ils c + hlen app) - h_ivt_off c in
-  let app_off := h_ils c - h_ivt_off c in
-  let entry := match h_entry c with Some e => e | None => hdec_le (hslice app 4 8) end in
-  (* segments in SEGMENTS_MAPPING order: IVT, BDT, DCD, XMCD, CSF, APP *)
   bind (match h_dcd c with None => Ok None | Some d => res_map Some (dcd_parse d) end) (fun dcd =>
   bind (match h_xmcd c with None => Ok None | Some d => res_map Some (xmcd_load d) end) (fun xm =>
-  let i := {| iv_ver := 64; iv_app := entry; iv_dcd := (match h_dcd c with Some _ => ivt_addr + 64 | None => 0 end);
-              iv_bdt := ivt_addr + 32; iv_self := ivt_addr; iv_csf := (if auth then ivt_addr + csf_off else 0) |} in
-  let app_bin := if auth then pad_to 16 app else app in
-  bind (if auth then
+  bind (if c_auth c then
           if match h_secs c with [] => true | _ => false end then Err E_BADCASE
-          else load_cmds (h_ver c) (h_engine c) (h_start c + align_off (h_ils c + hlen app) + 8192) (h_secs c)
+          else load_cmds (h_ver c) (h_engine c) (h_start c + align_off (h_ils c + hlen (h_app c)) + 8192) (h_secs c)
         else Ok []) (fun cmds0 =>
-  let bdt_len0 := h_ivt_off c + (if auth then csf_off + 8192 else app_off + hlen app_bin) in
-  let bdt_len := if enc then bdt_len0 + 512 else bdt_len0 in
-  bind (ivt_export i) (fun ivt_b =>
-  bind (bdt_export (h_start c) bdt_len 0) (fun bdt_b =>
+  bind (ivt_export (c_ivt c)) (fun ivt_b =>
+  bind (bdt_export (h_start c) (c_bdt_len c) 0) (fun bdt_b =>
   bind (match xm with None => Ok None | Some x => res_map Some (xmcd_export x) end) (fun xm_b =>
-  let dcd_b := option_map dcd_export dcd in
-  let dcd_sz := match dcd with Some x => dcd_size x | None => 0 end in
-  let base_segs := [(0, ivt_b); (32, bdt_b)] ++ opt_seg 64 dcd_b ++ opt_seg 64 xm_b in
-  if negb auth then
-    Ok {| b_image := place (base_segs ++ [(app_off, app_bin)]); b_signed := []; b_enc := []; b_tbs_data := [];
-          b_tbs_csf := []; b_csf := []; b_app := app_bin; b_plain := app_bin; b_nonce := []; b_mac := [];
-          b_ivt := i; b_bdt_len := bdt_len; b_app_off := app_off; b_csf_off := 0;
-          b_dcd := match dcd_b with Some d => d | None => [] end; b_xmcd := match xm_b with Some d => d | None => [] end |}
+  Ok {| q_dcd := dcd; q_xm := xm; q_cmds0 := cmds0; q_ivt_b := ivt_b; q_bdt_b := bdt_b; q_xm_b := xm_b |})))))).
+
+Definition q_dcd_b (q : pre) : option (list N) := option_map dcd_export (q_dcd q).
+Definition q_dcd_sz (q : pre) : Z := match q_dcd q with Some x => dcd_size x | None => 0 end.
+Definition base_segs (q : pre) : list seg := [(0, q_ivt_b q); (32, q_bdt_b q)] ++ opt_seg 64 (q_dcd_b q) ++ opt_seg 64 (q_xm_b q).
+Definition of_opt (o : option (list N)) : list N := match o with Some d => d | None => [] end.
+
+(* HabContainer._get_signed_blocks / _get_encrypted_blocks: (address, size) *)
+Definition blk (c : hcfg) (off size : Z) : Z * Z := (h_start c + h_ivt_off c + off, size).
+Definition signed_blocks (c : hcfg) (q : pre) : list (Z * Z) :=
+  [blk c 0 64]
+  ++ (match q_dcd q with Some _ => [blk c 64 (q_dcd_sz q)] | None => [] end)
+  ++ (match q_xm q with Some _ => [blk c 64 0] | None => [] end)      (* SegXMCD has no size property: 0 *)
+  ++ (if c_enc c then [] else [blk c (c_app_off c) (hlen (c_app_bin c))]).
+Definition enc_blocks (c : hcfg) : list (Z * Z) := [blk c (c_app_off c) (hlen (c_app_bin c))].
+
+(* export_padding()[: ivt_offset + csf.offset] with the first CSF export *)
+Definition padded_image (c : hcfg) (q : pre) (csf0 : list N) : list N :=
+  firstn (Z.to_nat (h_ivt_off c + c_csf_off c))
+         (hzeros (h_ivt_off c) ++ place (base_segs q ++ [(c_csf_off c, csf0); (c_app_off c, c_app_bin c)])).
+
+(* CsfHabSegment.encrypt: (commands, application ciphertext, nonce, mac) *)
+Definition hab_encrypt (c : hcfg) (q : pre) (image : list N) : res (list ccmd * list N * list N * list N) :=
+  let nonce := match h_nonce c with Some n => n | None => rng_bytes (aead_nonce_len (hlen image)) end in
+  let plain := hslice image (h_ivt_off c + c_app_off c) (h_ivt_off c + c_app_off c + hlen (c_app_bin c)) in
+  if negb (Z.leb 7 (hlen nonce) && Z.leb (hlen nonce) 13 && ccm_tag_ok (h_mac_len c)
+           && ccm_len_ok nonce (length plain) && aes_key_ok (h_dek c)) then Err E_CRASH
   else
-  (* update_csf: padded image up to the CSF *)
-  bind (csf_export (h_ver c) cmds0) (fun csf0 =>
-  let img0 := place (base_segs ++ [(csf_off, csf0); (app_off, app_bin)]) in
-  let image := firstn (Z.to_nat (h_ivt_off c + csf_off)) (hzeros (h_ivt_off c) ++ img0) in
-  let blk off size := (h_start c + h_ivt_off c + off, size) in
-  (* encrypt *)
-  bind (if enc then
-          let nonce := match h_nonce c with Some n => n | None => rng_bytes (aead_nonce_len (hlen image)) end in
-          let eb := [blk app_off (hlen app_bin)] in
-          let plain := hslice image (h_ivt_off c + app_off) (h_ivt_off c + app_off + hlen app_bin) in
-          if negb (Z.leb 7 (hlen nonce) && Z.leb (hlen nonce) 13 && ccm_tag_ok (h_mac_len c)
-                   && ccm_len_ok nonce (length plain) && aes_key_ok (h_dek c)) then Err E_CRASH
-          else
-          let out := ccm_encrypt (aes_enc (h_dek c)) nonce [] (Z.to_nat (h_mac_len c)) plain in
-          let ct := firstn (length plain) out in
-          let mac := skipn (length plain) out in
-          match upd_auth 2 (add_blocks eb (Some (macimg (h_ver c) nonce mac))) cmds0 with
-          | None => Err E_REJECT
-          | Some cmds1 => Ok (cmds1, ct, eb, nonce, mac)
-          end
-        else Ok (cmds0, app_bin, [], [], [])) (fun e =>
+  let out := ccm_encrypt (aes_enc (h_dek c)) nonce [] (Z.to_nat (h_mac_len c)) plain in
+  let ct := firstn (length plain) out in
+  let mac := skipn (length plain) out in
+  match upd_auth 2 (add_blocks (enc_blocks c) (Some (macimg (h_ver c) nonce mac))) (q_cmds0 q) with
+  | None => Err E_REJECT
+  | Some cmds1 => Ok (cmds1, ct, nonce, mac)
+  end.
+
+Definition tbs_of (c : hcfg) (image : list N) (sb : list (Z * Z)) : list N :=
+  concat (map (fun b => hslice image (fst b - h_start c) (fst b - h_start c + snd b)) sb).
+
+Definition mk_built (c : hcfg) (q : pre) (image : list N) sb eb tbs tbs_csf csf_b app_fin nonce mac : built :=
+  {| b_image := image; b_signed := sb; b_enc := eb; b_tbs_data := tbs; b_tbs_csf := tbs_csf; b_csf := csf_b;
+     b_app := app_fin; b_plain := c_app_bin c; b_nonce := nonce; b_mac := mac;
+     b_ivt := c_ivt c; b_bdt_len := c_bdt_len c; b_app_off := c_app_off c; b_csf_off := (if c_auth c then c_csf_off c else 0);
+     b_dcd := of_opt (q_dcd_b q); b_xmcd := of_opt (q_xm_b q) |}.
+
+(* HabContainer.update_csf on an authenticated container, then export *)
+Definition hab_finish (c : hcfg) (q : pre) : res built :=
+  bind (csf_export (h_ver c) (q_cmds0 q)) (fun csf0 =>
+  let image := padded_image c q csf0 in
+  bind (if c_enc c then res_map (fun e => let '(cmds1, ct, nonce, mac) := e in (cmds1, ct, enc_blocks c, nonce, mac)) (hab_encrypt c q image)
+        else Ok (q_cmds0 q, c_app_bin c, [], [], [])) (fun e =>
   let '(cmds1, app_fin, eb, nonce, mac) := e in
-  (* sign *)
-  let sb := [blk 0 64]
-            ++ (match dcd with Some _ => [blk 64 dcd_sz] | None => [] end)
-            ++ (match xm with Some _ => [blk 64 0] | None => [] end)      (* SegXMCD has no size property: 0 *)
-            ++ (if enc then [] else [blk app_off (hlen app_bin)]) in
+  let sb := signed_blocks c q in
   match upd_auth 1 (add_blocks sb (Some (sigimg (h_ver c) (h_sig_data c)))) cmds1 with
   | None => Err E_REJECT
   | Some cmds2 =>
     if existsb (fun b => hlen image <? fst b - h_start c + snd b) sb then Err E_REJECT
     else
-    let tbs := concat (map (fun b => hslice image (fst b - h_start c) (fst b - h_start c + snd b)) sb) in
     match upd_auth 0 (add_blocks [] (Some (sigimg (h_ver c) (h_sig_csf c)))) cmds2 with
     | None => Err E_REJECT
     | Some cmds3 =>
       bind (csf_export (h_ver c) cmds3) (fun csf_b =>
-      Ok {| b_image := place (base_segs ++ [(csf_off, csf_b); (app_off, app_fin)]); b_signed := sb; b_enc := eb;
-            b_tbs_data := tbs; b_tbs_csf := csf_base (h_ver c) cmds3; b_csf := csf_b; b_app := app_fin;
-            b_plain := app_bin; b_nonce := nonce; b_mac := mac;
-            b_ivt := i; b_bdt_len := bdt_len; b_app_off := app_off; b_csf_off := csf_off;
-            b_dcd := match dcd_b with Some d => d | None => [] end;
-            b_xmcd := match xm_b with Some d => d | None => [] end |})
+      Ok (mk_built c q (place (base_segs q ++ [(c_csf_off c, csf_b); (c_app_off c, app_fin)])) sb eb
+                   (tbs_of c image sb) (csf_base (h_ver c) cmds3) csf_b app_fin nonce mac))
     end
-  end)))))))).
+  end)).
+
+Definition hab_build (c : hcfg) : res built :=
+  bind (hab_pre c) (fun q =>
+  if negb (c_auth c) then
+    Ok (mk_built c q (place (base_segs q ++ [(c_app_off c, c_app_bin c)])) [] [] [] [] [] (c_app_bin c) [] [])
+  else hab_finish c q).
 
 (* ------------------------------------------------------------------ parse *)
 Definition known_offsets : list Z := [256; 1024; 3072; 4096; 8192].
@@ -584,36 +610,50 @@ Definition csf_parse (d : list N) : res (Z * list pcmd) :=
             if dup_locs [] cs then Err E_REJECT
             else bind (all_ok d cs) (fun _ => Ok (hbyte d 3, cs))).
 
+(* everything HabContainer.parse reads except the CSF contents *)
+Record psegs := {
+  s_ivt : ivt; s_bdt : Z * Z * Z; s_dcd : option (list N); s_xmcd : option (list N); s_app_off : Z; s_app : list N }.
+
+Definition parse_ivt_bdt (d : list N) : res (ivt * (Z * Z * Z)) :=
+  bind (ivt_parse d) (fun i => bind (bdt_parse (hskip d (iv_bdt i - iv_self i))) (fun b => Ok (i, b))).
+Definition parse_dcd (d : list N) (i : ivt) : res (option (list N)) :=
+  if iv_dcd i =? 0 then Ok None
+  else res_map (fun x => Some (dcd_export x)) (dcd_parse (hskip d (iv_dcd i - iv_self i))).
+Definition parse_xmcd (d : list N) : res (option (list N)) :=
+  bind (xmcd_hdr_parse (hskip d 64)) (fun o =>
+  match o with
+  | None => Ok None
+  | Some (iface, inst, typ, bsz) =>
+      res_map Some (xmcd_export {| xm_if := iface; xm_inst := inst; xm_type := typ; xm_cfg := hslice d 68 (68 + bsz - 4) |})
+  end).
+Definition parse_csf (d : list N) (i : ivt) : res (option (Z * list N * list pcmd)) :=
+  if iv_csf i =? 0 then Ok None
+  else let off := iv_csf i - iv_self i in
+       let region := hslice d off (off + 8192) in
+       res_map (fun r => Some (fst r, region, snd r)) (csf_parse region).
+Definition parse_app (d : list N) (i : ivt) : res (Z * list N) :=
+  bind (find_app_off d (iv_app i) known_offsets) (fun aoff =>
+  Ok (aoff, hslice d aoff (if 0 <? iv_csf i then iv_csf i - iv_self i else hlen d))).
+
 Record parsed := {
   p_flags : Z; p_ivt_off : Z; p_start : Z; p_ivt : ivt; p_bdt : Z * Z * Z;
   p_dcd : option (list N); p_xmcd : option (list N); p_csf : option (Z * list N * list pcmd);
   p_app_off : Z; p_app : list N }.
 
 Definition hab_parse (d : list N) : res parsed :=
-  bind (ivt_parse d) (fun i =>
-  let boff := iv_bdt i - iv_self i in
-  bind (bdt_parse (hskip d boff)) (fun b =>
-  bind (if iv_dcd i =? 0 then Ok None
-        else res_map (fun x => Some (dcd_export x)) (dcd_parse (hskip d (iv_dcd i - iv_self i)))) (fun dcd =>
-  bind (bind (xmcd_hdr_parse (hskip d 64)) (fun o =>
-        match o with
-        | None => Ok None
-        | Some (iface, inst, typ, bsz) =>
-            res_map Some (xmcd_export {| xm_if := iface; xm_inst := inst; xm_type := typ; xm_cfg := hslice d 68 (68 + bsz - 4) |})
-        end)) (fun xm =>
-  bind (if iv_csf i =? 0 then Ok None
-        else let off := iv_csf i - iv_self i in
-             let region := hslice d off (off + 8192) in
-             res_map (fun r => Some (fst r, region, snd r)) (csf_parse region)) (fun csf =>
-  bind (find_app_off d (iv_app i) known_offsets) (fun aoff =>
-  let e := if 0 <? iv_csf i then iv_csf i - iv_self i else hlen d in
+  bind (parse_ivt_bdt d) (fun ib =>
+  let '(i, b) := ib in
+  bind (parse_dcd d i) (fun dcd =>
+  bind (parse_xmcd d) (fun xm =>
+  bind (parse_csf d i) (fun csf =>
+  bind (parse_app d i) (fun ap =>
   let flags := match csf with
                | None => 0
                | Some (_, _, cs) => if 3 <=? hlen (filter (fun c => pc_tag c =? 202) cs) then 12 else 8
                end in
   let '(st, _, _) := b in
   Ok {| p_flags := flags; p_ivt_off := iv_self i - st; p_start := st; p_ivt := i; p_bdt := b;
-        p_dcd := dcd; p_xmcd := xm; p_csf := csf; p_app_off := aoff; p_app := hslice d aoff e |})))))).
+        p_dcd := dcd; p_xmcd := xm; p_csf := csf; p_app_off := fst ap; p_app := snd ap |}))))).
 
 (* ------------------------------------------------------------------ SRK table fuses (SrkTable.export_fuses) *)
 Fixpoint srk_items (fuel : nat) (d : list N) : list (list N) :=
